@@ -27,7 +27,7 @@ ENV = dict(os.environ)
 ENV["CARGO_NET_OFFLINE"] = "true"
 ENV.pop("RUSTFLAGS", None)
 
-JOBS = int(os.environ.get("VERIF_JOBS", "12"))
+JOBS = int(os.environ.get("VERIF_JOBS", "10"))
 
 
 def load_checks():
@@ -300,6 +300,19 @@ def main():
             problems.append("no harness selected in crate %s" % crate)
             continue
         results, out, wall = run_kani(crate, sel, tier, opts, tdir_suffix="__" + prop)
+        # resource trouble (out of memory / timeout while many CBMC processes share the machine) is
+        # retried with few processes before it is allowed to make the check inconclusive
+        if "__build_error__" not in results:
+            again = [h for h, r in results.items() if r["status"] in ("oom", "timeout", "missing", "error", "unknown")]
+            if again:
+                opts2 = dict(opts)
+                opts2["harness_timeout_min"] = {tier: 2 * opts.get("harness_timeout_min", {}).get(tier, 10 if tier == "quick" else 60)}
+                r2, out2, wall2 = run_kani(crate, again, tier, opts2, tdir_suffix="__" + prop, jobs=3)
+                wall += wall2
+                if "__build_error__" not in r2:
+                    for h, r in r2.items():
+                        r["retried"] = True
+                        results[h] = r
         if "__build_error__" in results and opts.get("build_failure_is_violation"):
             # the catalogue of derived types no longer compiles although /repo itself builds:
             # the derive output is wrong for a supported shape (C18)
